@@ -643,9 +643,15 @@ int main(int argc, char** argv) {
   RunInfo ri;
   const Setup setup = makeSetup();
   const int depth = static_cast<int>(opt.num("depth", 2));
+  if (depth >= 2) {   // the depth-2 spaces need several GB per worker: never start more workers than the memory available now can carry
+    long availKb = 0; if (FILE* f = fopen("/proc/meminfo", "r")) { char line[256]; while (fgets(line, sizeof line, f)) if (sscanf(line, "MemAvailable: %ld kB", &availKb) == 1) break; fclose(f); }
+    const long perWorkerGb = opt.num("gb-per-worker", 8);   // measured plateau: ~7 GB resident per worker at depth 2
+    const int cap = availKb > 0 ? static_cast<int>(std::min(8L, std::max(2L, (availKb / (1024 * 1024)) * 9 / 10 / perWorkerGb))) : opt.workers;
+    if (cap < opt.workers) { fprintf(stderr, "h_sem: %d workers -> %d (MemAvailable %ld GB, %ld GB per worker at depth 2)\n", opt.workers, cap, availKb / (1024 * 1024), perWorkerGb); opt.workers = cap; }
+  }
   if (opt.mode == "types") {
     res.property = "C03";
-    rsgen::Generator gen(setup.ref); gen.leaves = leafPool(false); gen.repsPerKey = static_cast<size_t>(opt.num("reps", 2)); gen.bodyReps = static_cast<size_t>(opt.num("bodyreps", 3)); gen.bothDeep = opt.num("bothdeep", 1) != 0;
+    rsgen::Generator gen(setup.ref); gen.leaves = leafPool(false); gen.repsPerKey = static_cast<size_t>(opt.num("reps", 2)); gen.bodyReps = static_cast<size_t>(opt.num("bodyreps", 3)); gen.bothDeep = opt.num("bothdeep", 1) != 0; if (depth >= 2) gen.bodyCacheMax = 48;
     if (depth >= 2) gen.prepareDepth2();   // in the parent: shared by all workers
     res.rep = run_sharded(opt, "types", [&](Ctx& c) { run_types(c, setup, gen, depth); }, &ri);
     res.states = res.rep.counters["evaluations"] + res.rep.counters["unasserted_logic_global_at_root"];
@@ -658,7 +664,7 @@ int main(int argc, char** argv) {
     const int maxBase = static_cast<int>(opt.num("base", 2));
     gen.bodyReps = static_cast<size_t>(opt.num("bodyreps", 1)); gen.bothDeep = opt.num("bothdeep", 1) != 0;
     const bool fullProduct = opt.num("fullproduct", 0) != 0;
-    if (depth >= 2) gen.prepareDepth2();
+    if (depth >= 2) { gen.bodyCacheMax = 48; gen.prepareDepth2(); }
     res.rep = run_sharded(opt, opt.mode, [&](Ctx& c) { run_eval(c, setup, gen, depth, cmp, maxBase, fullProduct); }, &ri);
     res.states = res.rep.counters["evaluations"];
     res.completed_bound = "expressions: every constructor over all leaves (depth 1)" + std::string(depth >= 2 ? " and over leaves + representatives of depth 1 (depth 2)" : "") + "; data: every interpretation of the mentioned globals over base sets of <= " + std::to_string(maxBase) + " elements (all subsets for S1 S2 D1, all elements for D2)" + std::string(fullProduct ? ", full product" : "; when the product exceeds 64 interpretations: one global varies over all its values while the others hold their fullest value, plus the all-empty interpretation");
